@@ -219,6 +219,7 @@ type serveCase struct {
 	phRoot, phHide, phIndex bool
 	pre      [3]bool  // precompressed gzip, br, zstd configured
 	accepted []string // what encode.AcceptedEncodings shall return, in order
+	query    string    // r.URL.RawQuery
 	fault    faultSpec // only inside a `pair` case: how this request's listing fails to be delivered
 	path, orig        string
 	tree              map[string]kind
@@ -233,6 +234,7 @@ type serveObs struct {
 	listDir  string   // name of the directory handle that was listed
 	fileName string   // name of the file handle that was read
 	sidecarEnc string // Content-Encoding of a served precompressed sidecar
+	location string   // Location header of a redirect
 	fs       *memFS
 }
 
@@ -288,11 +290,14 @@ func (prop) Finish(*core.Session) {
 	}
 }
 
-func newRequest(orig, cur string) (*http.Request, *httptest.ResponseRecorder) {
+func newRequest(orig, cur string, query ...string) (*http.Request, *httptest.ResponseRecorder) {
 	r := httptest.NewRequest(http.MethodGet, "http://example.test/", nil)
 	r.Header.Set("Accept", "application/json")
 	r.URL.Path = orig
 	r.URL.RawPath = ""
+	if len(query) > 0 {
+		r.URL.RawQuery = query[0]
+	}
 	w := httptest.NewRecorder()
 	repl := caddy.NewReplacer()
 	r = caddyhttp.PrepareRequest(r, repl, w, nil)
@@ -360,7 +365,7 @@ func runServe(c serveCase) (serveObs, error) {
 	// Provision has run (it resolves static hide paths); only the request counts as FS traffic
 	m.opened, m.readFile, m.readDir = nil, nil, nil
 
-	r, w := newRequest(c.orig, c.path)
+	r, w := newRequest(c.orig, c.path, c.query)
 	for k, v := range vars {
 		caddyhttp.SetVar(r.Context(), k, v)
 	}
@@ -414,6 +419,10 @@ func runServe(c serveCase) (serveObs, error) {
 		}
 	case w.Code == http.StatusPermanentRedirect:
 		o.outcome = "redirect"
+		o.location = w.Header().Get("Location")
+		if strings.HasPrefix(c.orig, "/") {
+			o.outcome += " " + core.Hex(o.location)
+		}
 	case w.Code == 200 && strings.HasPrefix(w.Header().Get("Content-Type"), "application/json; charset=utf-8") && len(m.readDir) > 0:
 		var items []struct {
 			Name string `json:"name"`
@@ -517,7 +526,7 @@ func runMatch(c matchCase) (matchObs, error) {
 // parseServe parses the fields of a serve case; f[0] is ignored ("serve").
 func parseServe(f []string) (serveCase, bool) {
 	var c serveCase
-	if len(f) != 9 && len(f) != 11 {
+	if len(f) != 9 && len(f) != 11 && len(f) != 12 {
 		return c, false
 	}
 	var e [4]error
@@ -537,7 +546,19 @@ func parseServe(f []string) (serveCase, bool) {
 	if e[0] != nil || e[1] != nil || e[2] != nil || e[3] != nil || !ok1 || !ok2 || !ok3 || !ok4 || !validCwd(c.cwd) {
 		return c, false
 	}
-	if len(f) == 11 {
+	if len(f) == 12 {
+		q, err := core.UnHex(f[11])
+		if err != nil {
+			return c, false
+		}
+		for i := 0; i < len(q); i++ {
+			if q[i] < 0x20 || q[i] == 0x7f || q[i] == '#' || q[i] == ' ' || q[i] >= 0x80 || q[i] == 't' {
+				return c, false
+			}
+		}
+		c.query = q
+	}
+	if len(f) >= 11 {
 		pb, okp := parseBits(f[9], 3)
 		acc, oka := parseList(f[10])
 		if !okp || !oka {
